@@ -585,6 +585,9 @@ func genC04(o *Out, rng *rand.Rand, tier string) {
 	for _, w := range overloadWires(rng) {
 		emit(w, "option-overload-fields")
 	}
+	for _, w := range cookieWires(rng) {
+		emit(w, "cookie-octets-among-the-options")
+	}
 	var rec func(cur []byte)
 	rec = func(cur []byte) {
 		emitArea(cur, "exhaustive-area")
